@@ -287,6 +287,16 @@ def parse_rdflib(data: bytes | io.IOBase, entry: str = "flat", **kw):
     raise ValueError(entry)
 
 
+def other_sources(data: bytes):
+    """The same bytes as the parser may be handed them other than from a fresh BytesIO: a seekable stream positioned behind a preamble, and a
+    non-seekable source whose first reads return one byte each (how the bytes ARRIVE is not part of what a stream denotes)."""
+    from .framing import ChunkedRaw  # noqa: PLC0415
+
+    pre = io.BytesIO(b"PREAMBL" + data)
+    pre.seek(7)
+    return [("seekable-at-offset-7", pre), ("pipe-1-1-1-then-64", ChunkedRaw(data, [1, 1, 1], then=64))]
+
+
 def serialize(cfg, stmts, namespaces=(), info=None) -> bytes:
     return (ser_rdflib if cfg["integ"] == "rdflib" else ser_generic)(cfg, stmts, namespaces, info)
 
